@@ -18,7 +18,22 @@ RULE = ("random dependency DAGs of 1..30 resolve.SingleFetch items (chains/forks
         "id, DependsOnFetchIDs and MergedFetchIDs; the member-level spec is evaluated against the planner's original "
         "per-fetch dependencies. A case is distinct by the hash of its line and "
         "non-trivial when the plan is acyclic with unique ids and has at least one fork (an in-list fetch that "
-        "two fetches depend on) and one join (a fetch with two distinct in-list dependencies).")
+        "two fetches depend on) and one join (a fetch with two distinct in-list dependencies). "
+        "PATH CASES (kind paths, own stream): fetch lists of 2..24 fetches WITH response paths and merge paths over a generated "
+        "tree of object positions (2-5 segment names drawn from a, ab, abc, b, bc, c, user, users, u, x so that sibling prefixes "
+        "like b / bc meet; array segments '@' inside a path; deep chains), root fetches with and without a merge path, nested "
+        "fetches with an empty merge path (the entity-fetch shape) or a one/two segment merge path leading towards another "
+        "position; 42% of the nested fetches have NO declared dependency (left to addMissingNestedDependencies), the others "
+        "declare the nearest fetch writing above them, or all of them, or arbitrary earlier fetches (possibly not covering), or a "
+        "deeper fetch, plus ids outside the list (also as the only dependency); entity fetches on 1-3 datasources; shuffled ids and "
+        "list order; 1 in 10 is malformed (kind pathodd: an empty segment, a segment containing '.', a lone dot). They run through the "
+        "REAL postprocess.Processor with NOTHING switched off and the option sets the execution engine uses (none, "
+        "EnableScheduleFetches, EnableMultiFetch, both), three times each, plus once with the two tree-building stages off to "
+        "observe the output of the stage addMissingNestedDependencies itself. Model: ModelPaths.add_missing / pipeline; spec on the "
+        "implementation's trees: members_once, respects_member_deps (declared), stage_reads_respected (every fetch without "
+        "declared dependencies is sequenced strictly after every fetch that writes above its response path, segment-wise) and, "
+        "when the planner-side hypothesis covers_b holds, reads_respected for every fetch. A path case is non-trivial when the "
+        "stage has to complete a fetch whose provider is itself nested.")
 
 
 def classify(case, detail):
@@ -46,6 +61,55 @@ def _first_tree(case, mode):
                 return case[i:j + 1]
         j += 1
     return None
+
+
+def distribution_paths(cases, results):
+    d = {"cases": len(cases), "kind_paths": sum(1 for c in cases if c.startswith("(c08 paths")),
+         "kind_pathodd_malformed": sum(1 for c in cases if c.startswith("(c08 pathodd"))}
+    sizes = {"2-5": 0, "6-12": 0, "13-24": 0}
+    nested_empty_mp = nested_mp = root_mp = eligible = declared_nested = arrays = prefix_pairs = 0
+    for c in cases:
+        m = re.search(r"\(dag(.*?)\) \(res ", c)
+        fs = re.findall(r'\(f (\d+) \(([\d ]*)\) (?:-|\(\d+ \d+\)) \(rp([^)]*)\) \(mp([^)]*)\)\)', m.group(1)) if m else []
+        n = len(fs)
+        sizes["2-5" if n <= 5 else "6-12" if n <= 12 else "13-24"] += 1
+        segs = set()
+        for _, deps, rp, mp in fs:
+            rp, mp = rp.split(), mp.split()
+            segs.update(x.strip('"') for x in rp)
+            if rp and not mp:
+                nested_empty_mp += 1
+            if rp and mp:
+                nested_mp += 1
+            if not rp and mp:
+                root_mp += 1
+            if rp and not deps.strip():
+                eligible += 1
+            if rp and deps.strip():
+                declared_nested += 1
+            if '"@"' in rp:
+                arrays += 1
+        if any(a != b and b.startswith(a) for a in segs for b in segs if a and a != "@"):
+            prefix_pairs += 1
+    d["sizes"] = sizes
+    d["fetches_nested_with_empty_merge_path"] = nested_empty_mp
+    d["fetches_nested_with_merge_path"] = nested_mp
+    d["fetches_root_with_merge_path"] = root_mp
+    d["fetches_nested_without_declared_dependencies"] = eligible
+    d["fetches_nested_with_declared_dependencies"] = declared_nested
+    d["fetches_below_an_array_segment"] = arrays
+    d["cases_with_sibling_prefix_segment_names"] = prefix_pairs
+    cls = {}
+    for (_, status, detail) in results or []:
+        if status == "ok":
+            k = detail.split(" ", 1)[-1] if " " in detail else detail
+            cls[k] = cls.get(k, 0) + 1
+    d["hypothesis_classes_of_ok_cases"] = cls
+    d["with_merged_node_in_mode_m"] = sum(
+        1 for c in cases if re.search(r"\(S \d+ \([\d ]*\) \(\d[\d ]*\)\)", _first_tree(c, "m") or ""))
+    d["scheduler_tree_differs_from_waves"] = sum(
+        1 for c in cases if _first_tree(c, "w") and _first_tree(c, "s") and _first_tree(c, "w") != _first_tree(c, "s"))
+    return d
 
 
 def distribution(cases):
@@ -95,6 +159,11 @@ def _run_all(chk, exe, model, n, state, samples):
         vlib.digest_batch(chk, b[0], b[1], classify, state)
         samples += [c[:400] for c in sorted(b[0][:50], key=len)[:3]]
         chk.coverage["distribution"] = distribution(b[0])
+    b = vlib.run_batch(chk, "%s genp -seed %d -n %d -out {out}" % (exe, chk.seed, n), model, "genp", timeout=3000)
+    if b:
+        vlib.digest_batch(chk, b[0], b[1], classify, state)
+        samples += [c[:600] for c in sorted(b[0][:50], key=len)[:2]]
+        chk.coverage.setdefault("distribution", {})["path_cases"] = distribution_paths(b[0], b[1])
 
 
 def run(chk):
@@ -114,8 +183,23 @@ def run(chk):
         "createMultiFetch is modelled on wave trees (grouping by datasource inside a wave, envelope precondition, "
         "unionDependencies, survivor = least id, redirect of dependants); isCandidate and the document-level merge "
         "preconditions (buildMergedOperation) are an input attribute: the harness builds entity fetches whose documents "
-        "always merge; addMissingNestedDependencies, deduplication and all non-structural stages are switched off in the "
-        "harness: the theorems quantify over the dependency lists those stages output, assumed acyclic",
+        "always merge; for the DAG stream addMissingNestedDependencies, deduplication and all non-structural stages are "
+        "switched off in the harness; for the path stream nothing is switched off (real stage order, engine option sets)",
+        "addMissingNestedDependencies is modelled at the level of byte strings (ModelPaths.v: ResponsePath = Join(elements), "
+        "providedPathByNode, strings.HasPrefix), the in-place loop as a map (of the other nodes it reads only path, merge path "
+        "and id); ResponsePath = strings.Join(ResponsePathElements, \".\") is the planner's construction "
+        "(plan/path_builder_visitor.go) and a generator invariant; deduplicateSingleFetches runs but finds nothing (pairwise "
+        "different inputs; its transparency is C09); the stages after organizeFetchTree (renderSubgraphInputs, "
+        "resolveInputTemplates, createConcreteSingleFetchTypes) run and are observed not to change id / DependsOnFetchIDs / "
+        "tree shape",
+        "the data-flow relation of SpecPaths.v (writes_above: a fetch merging at or above the object another fetch is prepared "
+        "from, segment-wise, a fetch merging INTO the objects at p not counting as their creator) is read off "
+        "resolve/loader.go (items selected by response path, mergeResult at MergePath) by hand; it is the may-write relation "
+        "by position, the stage's own policy for fetches without declared dependencies; for fetches WITH declared "
+        "dependencies the planner's list is the data-flow relation (hypothesis covers for the combined statement)",
+        "the completed dependency lists are assumed acyclic (checked per generated plan with the extracted acyclic_b; "
+        "c08_completion_keeps_acyclic gives the sufficient condition 'no declared dependency on a deeper fetch'); on a cyclic "
+        "list the Go process dies (unguarded nodeDependsOn) -- outside the property, the generator filters such lists",
         "the model's scheduler recursion has fuel S(length l); sufficiency is proved for the legacy pipeline "
         "(c08_organize_waves_total) but not for the scheduler: an out-of-fuel model result is reported as a driver error",
         "harness/cmd/c08 (generator, tree printer, processor options that isolate the stages)",
@@ -136,10 +220,11 @@ def run(chk):
 
     def more(st):
         for k in range(1, 6):
-            bb = vlib.run_batch(chk, "%s gen -seed %d -n %d -out {out}" % (exe, chk.seed * 1000 + k, n * 4), model,
-                                "more%d" % k, timeout=3000)
-            if bb:
-                vlib.digest_batch(chk, bb[0], bb[1], classify, st)
+            for sub in ("gen", "genp"):
+                bb = vlib.run_batch(chk, "%s %s -seed %d -n %d -out {out}" % (exe, sub, chk.seed * 1000 + k, n * 4), model,
+                                    "more%d%s" % (k, sub), timeout=3000)
+                if bb:
+                    vlib.digest_batch(chk, bb[0], bb[1], classify, st)
             if any(kk is None for (kk, _, _) in st.get("specfail", [])):
                 break
 
@@ -156,6 +241,15 @@ def _corpus_line(case):
     m = re.match(r"\(c08 (\w+) \(dag(.*?)\) \(res ", case)
     if not m:
         return None
+    if m.group(1) in ("paths", "pathodd"):
+        def segs(txt):
+            xs = re.findall(r'"((?:[^"\\\\]|\\\\.)*)"', txt)
+            return "/".join(x if x != "" else "%e" for x in xs)
+        fs = re.findall(r'\(f (\d+) \(([\d ]*)\) (-|\(\d+ \d+\)) \(rp([^)]*)\) \(mp([^)]*)\)\)', m.group(2))
+        return "%s\t%s" % (m.group(1), " ".join(
+            "%s:%s%s~%s~%s" % (i, ",".join(d.split()), "" if src == "-" else "@" + src.strip("()").replace(" ", "."),
+                               segs(rp), segs(mp))
+            for i, d, src, rp, mp in fs))
     fs = re.findall(r"\(f (\d+) \(([\d ]*)\) (-|\(\d+ \d+\))\)", m.group(2))
     return "%s\t%s" % (m.group(1), " ".join(
         "%s:%s%s" % (i, ",".join(d.split()), "" if src == "-" else "@" + src.strip("()").replace(" ", "."))
